@@ -38,7 +38,8 @@ const denom = "uakt"
 const denom2 = "uatom"
 
 // Cast member names, in a fixed order; addresses are derived from the name.
-var castNames = []string{"T1", "T2", "P1", "P2", "U1", "U2", "B"}
+// PX: an account that is short of funds in the scenarios that set GenesisParams.PoorFunds (bank transfers that fail)
+var castNames = []string{"T1", "T2", "P1", "P2", "U1", "U2", "B", "PX"}
 
 type Cast struct {
 	Names []string
@@ -76,9 +77,13 @@ type GenesisParams struct {
 	BidMinDeposit        int64
 	Funds                int64 // initial balance of every cast member
 	StartHeight          int64
+	PoorFunds            int64 // when > 0: the initial uakt balance of cast member PX
 }
 
 func (g GenesisParams) String() string {
+	if g.PoorFunds > 0 {
+		return fmt.Sprintf("dmin=%d bmin=%d funds=%d h0=%d funds(PX)=%d", g.DeploymentMinDeposit, g.BidMinDeposit, g.Funds, g.StartHeight, g.PoorFunds)
+	}
 	return fmt.Sprintf("dmin=%d bmin=%d funds=%d h0=%d", g.DeploymentMinDeposit, g.BidMinDeposit, g.Funds, g.StartHeight)
 }
 
@@ -113,7 +118,11 @@ func NewWorld(gp GenesisParams) *World {
 	total := sdk.NewCoins()
 	for i, n := range cast.Names {
 		accs = append(accs, authtypes.NewBaseAccount(cast.Addr[n], nil, uint64(i), 0))
-		coins := sdk.NewCoins(sdk.NewInt64Coin(denom, gp.Funds), sdk.NewInt64Coin(denom2, 1000))
+		funds := gp.Funds
+		if n == "PX" && gp.PoorFunds > 0 {
+			funds = gp.PoorFunds
+		}
+		coins := sdk.NewCoins(sdk.NewInt64Coin(denom, funds), sdk.NewInt64Coin(denom2, 1000))
 		bals = append(bals, banktypes.Balance{Address: cast.S(n), Coins: coins})
 		total = total.Add(coins...)
 	}
